@@ -144,6 +144,10 @@ def explain(pid, n, edges, which, got):
 
 
 def traversal_correspondence(run, pid, tier, seed):
+    import os
+    if os.environ.get('VERIF_TRANSLATOR_REFUSED') == '1':      # main.py: the translator refused the current source; nothing generated to evaluate
+        run.coverage['translated_source_cases'] = 0
+        return
     rng = random.Random(seed + 1409)
     ncase = 220 if tier == 'quick' else 3000
     cases = [gen_case(rng) for _ in range(ncase)]
